@@ -26,6 +26,9 @@ def attempt(f, post=None):
     return r
 
 
+REJ_TYPES = (ValueError, TypeError, NotImplementedError)
+
+
 class C20(Harness):
     pid = "C20"
     labels = ("rejected-iff-invalid", "valid-twin-accepted", "proper-exception-type", "no-fitted-state-after-rejection")
@@ -201,7 +204,11 @@ class C20(Harness):
             out["reduction.fit"] = attempt(lambda: r.fit(good, fh=fh), lambda: r.is_fitted)
         elif k == "fh-empty-fractional-type":
             f = NF("last").fit(good)
-            for name, bad in (("empty", np.array([], dtype=int)), ("empty_list", []), ("frac", np.array([inp["frac"]])), ("frac_scalar", inp["frac"]), ("str", "1"), ("dict", {"a": 1}), ("none_in_list", [1, None])):
+            try:
+                empty_obj = FH(np.array([], dtype=int))  # an empty horizon that already is a ForecastingHorizon object
+            except REJ_TYPES:
+                empty_obj = np.array([], dtype=int)
+            for name, bad in (("empty", np.array([], dtype=int)), ("empty_list", []), ("empty_object", empty_obj), ("frac", np.array([inp["frac"]])), ("frac_scalar", inp["frac"]), ("str", "1"), ("dict", {"a": 1}), ("none_in_list", [1, None])):
                 out["predict:" + name] = attempt(lambda bad=bad: f.predict(bad))
                 g = NF("last")
                 out["fit:" + name] = attempt(lambda bad=bad, g=g: g.fit(good, fh=bad), lambda g=g: g.is_fitted)
@@ -295,6 +302,7 @@ class C20(Harness):
                 return attempt(lambda: p.fit(good, fh=1), lambda: p.is_fitted)
 
             out["ens:duplicate-names"] = ens([("a", Member(p=1)), ("a", Member(p=2))])
+            out["ens:duplicate-names-apart"] = ens([("a", Member(p=1)), ("b", Member(p=2)), ("a", Member(p=3))])
             out["ens:dunder-name"] = ens([("a__b", Member(p=1))])
             out["ens:ctor-arg-name"] = ens([("forecasters", Member(p=1))])
             out["ens:empty"] = ens([])
